@@ -311,6 +311,9 @@ Section Signer.
              | [] => Panic
              | cp0 :: _ =>
                  let epoch := epoch_of (co_slot (cp_contribution cp0)) in
+                 (* one domain for all items: they must all be for the same epoch *)
+                 if negb (forallb (fun cp => epoch_of (co_slot (cp_contribution cp)) =? epoch) cps) then Err
+                 else
                  match p_domain P dt epoch with
                  | None => Err
                  | Some domain =>
